@@ -345,6 +345,26 @@ class _rewrite_captured_vars(ast.NodeTransformer):
         self._ignore_stack.pop()
         return v
 
+    def visit_ListComp(self, node: Any) -> Any:
+        "The targets of the `for` clauses are local to the comprehension: never replace them."
+        gens = node.generators
+        # The first iterable is evaluated in the enclosing scope.
+        gens[0].iter = self.visit(gens[0].iter)
+        self._ignore_stack.append(
+            [n.id for g in gens for n in ast.walk(g.target) if isinstance(n, ast.Name)]
+        )
+        for i, g in enumerate(gens):
+            if i > 0:
+                g.iter = self.visit(g.iter)
+            g.ifs = [self.visit(c) for c in g.ifs]
+        for f in ("elt", "key", "value"):
+            if hasattr(node, f):
+                setattr(node, f, self.visit(getattr(node, f)))
+        self._ignore_stack.pop()
+        return node
+
+    visit_SetComp = visit_GeneratorExp = visit_DictComp = visit_ListComp
+
     def visit_Call(self, node: ast.Call) -> Any:
         "If the rewritten call turns into an actual function, then we have to bail,"
         old_func = node.func
